@@ -44,10 +44,36 @@ def untraced(fn, *args, **kwargs):
         return orig(*a, **k)
     _z3.set_param = guarded
     try:
-        with _NoTracing(), _opened_auditwall():
+        with _NoTracing(), _opened_auditwall(), _monitoring_off():
             return fn(*args, **kwargs)
     finally:
         _z3.set_param = orig
+
+
+@contextlib.contextmanager
+def _monitoring_off():
+    """On Python >= 3.12 CrossHair traces through sys.monitoring INSTRUCTION events, which stay armed under NoTracing()
+    (the callback returns early, but every bytecode instruction still calls into it: ~6x slowdown measured on the Earley
+    parser).  While the code under test runs natively the events are switched off and re-armed afterwards."""
+    mon = getattr(sys, "monitoring", None)
+    tool = None
+    if mon is not None:
+        try:
+            from crosshair.tracers import SYS_MONITORING_TOOL_ID as tool
+            if mon.get_tool(tool) is None or not mon.get_events(tool):
+                tool = None
+        except Exception:
+            tool = None
+    if tool is None:
+        yield
+        return
+    events = mon.get_events(tool)
+    mon.set_events(tool, 0)
+    try:
+        yield
+    finally:
+        mon.set_events(tool, events)
+        mon.restart_events()
 
 try:  # only present in the CrossHair overlay; replay runs under plain /venv/bin/python
     from crosshair import deep_realize as realize, IgnoreAttempt
